@@ -160,5 +160,11 @@ MemberLaws ==
         /\ IsQuotOf(DivK(c, k), c, W(k))
         /\ WToInt(DivK(c, k)) = (IF (st.c < 0) = (k < 0) THEN 1 ELSE -1) * ((IF st.c < 0 THEN -st.c ELSE st.c) \div (IF k < 0 THEN -k ELSE k))
 
-Laws == RoundingLaws /\ BinaryLaws /\ MemberLaws
+\* the reduced context of the judge decides exactly like the full context used for the selection
+CtxLaw ==
+    st.kind \in {"u", "ub"} =>
+        \A n \in 1..Len(UTable) :
+            UPre(UTable[n][1], st.i, st.j, UTable[n][2], UTable[n][3], CW) = (n \in UOk(st.i, st.j, CW))
+
+Laws == RoundingLaws /\ BinaryLaws /\ MemberLaws /\ CtxLaw
 ===========================================================================
